@@ -377,7 +377,7 @@ Definition demo_bad : runspec :=
 Definition demo_cfg : config :=
   mkCfg [mkUD 0 true 100 1000 100 0 1 1 TEnemies TEnemies TEnemies [];
          mkUD 0 false 100 1000 100 0 0 0 TEnemies TEnemies TEnemies []]
-        [] [] [] [] [] [] [] [] [] [] 2 10.
+        [] [] [] [] [] [] [] [] [] [] [] 2 10.
 
 Lemma demo_nonvacuous :
   setup demo_cat demo_ok = None /\
